@@ -439,42 +439,6 @@ Proof.
   apply Z.mul_le_mono_nonneg_l; lia.
 Qed.
 
-(* ... and it fails for the code as it stands: 999 one-byte frames at 1001 B/s handed over at 0
-   are all delivered at 0; even a single one-byte frame at 1001 B/s takes no time at all *)
-Lemma orig_refuted_burst :
-  let js := burst 999 1 1001 in
-  Forall job_ok js /\ Forall (fun j => 0 < j_thr j <= 1001) js /\
-  Forall (fun j => j_arr j = 0) js /\
-  Forall (fun k => k_dlv k = 0) (sched tx_time_orig 1 0 js) /\
-  length (sched tx_time_orig 1 0 js) = 999%nat /\
-  total_len js = 999 /\
-  ~ (total_len js * NS <= 1001 * Z.max 0 (0 - 0)).
-Proof.
-  cbv zeta. split; [|split; [|split; [|split; [|split; [|split]]]]].
-  - apply Forall_forall. intros j Hj. apply repeat_spec in Hj. subst. unfold job_ok. cbn. lia.
-  - apply Forall_forall. intros j Hj. apply repeat_spec in Hj. subst. cbn. lia.
-  - apply Forall_forall. intros j Hj. apply repeat_spec in Hj. subst. reflexivity.
-  - assert (H : forallb (fun k => k_dlv k =? 0) (sched tx_time_orig 1 0 (burst 999 1 1001)) = true)
-      by (vm_compute; reflexivity).
-    rewrite forallb_forall in H. apply Forall_forall. intros k Hk. apply Z.eqb_eq. apply H. exact Hk.
-  - vm_compute. reflexivity.
-  - vm_compute. reflexivity.
-  - vm_compute. intros H. apply H. reflexivity.
-Qed.
-
-Lemma orig_refuted_single :
-  let js := [mkJob 0 1 1001 0 0] in
-  Forall job_ok js /\ Forall (fun j => 0 < j_thr j <= 1001) js /\
-  sched tx_time_orig 1 0 js = [mkSlot 0 0 0] /\
-  ~ (total_len js * NS <= 1001 * Z.max 0 (0 - 0)).
-Proof.
-  cbv zeta. split; [|split; [|split]].
-  - repeat constructor; cbn; lia.
-  - repeat constructor; cbn; lia.
-  - vm_compute. reflexivity.
-  - vm_compute. intros H. apply H. reflexivity.
-Qed.
-
 (* the hypotheses of the positive theorems are satisfiable, and the bound is tight *)
 Example sched_example :
   let js := [mkJob 0 1 1001 0 0; mkJob 0 1500 12500000 2000000 0] in
